@@ -116,6 +116,19 @@ def run_case(case, ctx):
                     f16 = walker.f16_pending(ws)
                     sig['f16shape'] = f16
                     had_oids = any(getattr(lf.obj, '_p_oid', None) is not None for lf in ws.leaves) or had_oids
+                # open finding F16e: the stored record of the root embeds its only leaf, and that leaf has meanwhile been
+                # given an oid of its own (an emptied, unlinked predecessor that was written in the same commit still
+                # pointed to it): from then on changes of the leaf register the leaf, never the root
+                sig['embedded_leaf_has_oid'] = False
+                if lv.is_tree and lv.t._p_oid in sto.data:
+                    try:
+                        _k, _data, _tid = sto.load_before(lv.t._p_oid, None)
+                        _st = w._unpickle(_data)
+                        fb = lv.t._firstbucket
+                        sig['embedded_leaf_has_oid'] = bool(_st is not None and len(_st) == 1 and fb is not None
+                                                            and fb._p_oid is not None and fb._next is None)
+                    except Exception:
+                        pass
                 try:
                     w.commit()
                 except Exception as e:
